@@ -248,7 +248,7 @@ pub fn run(tier: Tier, seed: u64) -> Report {
     let r = run_pbt(
         "jumps",
         seed,
-        tier.pick(3_000, 100_000),
+        tier.pick(10_000, 300_000),
         || {
             (gen::cell_spec(-1, 29), 0u8..=8, any::<u8>(), any::<u8>(), any::<u8>(), any::<u16>())
                 .prop_map(|(spec, delta, mid, a, b, pick)| Case { spec, delta, mid, a, b, pick })
